@@ -261,6 +261,9 @@ func referenceLine(l []byte, bh *Header) error {
 				return errBadHeader
 			}
 			hb := [16]byte{}
+			if hex.DecodedLen(len(f[3:])) > len(hb) {
+				return errBadHeader
+			}
 			n, err := hex.Decode(hb[:], f[3:])
 			if err != nil {
 				return err
